@@ -54,6 +54,7 @@ pub struct WorkerSummary {
     pub samples: Vec<serde_json::Value>,
     pub event_hashes: Vec<(u64, u64)>,
     pub ops_by_kind: BTreeMap<String, u64>,
+    pub hash_orders: BTreeSet<u64>,
 }
 
 impl WorkerSummary {
@@ -83,6 +84,7 @@ impl WorkerSummary {
             self.samples.truncate(3);
         }
         self.event_hashes.extend(o.event_hashes);
+        self.hash_orders.extend(o.hash_orders);
         for (k, v) in o.ops_by_kind {
             *self.ops_by_kind.entry(k).or_insert(0) += v;
         }
@@ -191,6 +193,9 @@ pub fn worker_runs(
             *sum.ops_by_kind.entry(op.kind_name().to_string()).or_insert(0) += 1;
         }
         sum.shapes_all.insert(rep.shape);
+        if sum.hash_orders.len() < 5000 {
+            sum.hash_orders.insert(rep.hash_order);
+        }
         if rep.nontrivial {
             sum.shapes_nontrivial.insert(rep.shape);
         }
